@@ -329,6 +329,15 @@ class _KalEval:
             elif isinstance(st, ast.Assign) and len(st.targets) == 1 and \
                     isinstance(st.targets[0], ast.Name):
                 self.env[st.targets[0].id] = self.ev(st.value)
+            elif isinstance(st, ast.Assign) and len(st.targets) == 1 and \
+                    isinstance(st.targets[0], ast.Tuple) and len(st.targets[0].elts) == 2 and \
+                    all(isinstance(e_, ast.Name) for e_ in st.targets[0].elts) and \
+                    isinstance(st.value, ast.Call) and \
+                    self.res(st.value.func) == 'scipy.linalg.cho_factor':
+                # c, lower = cho_factor(S): the factor and the triangle it is stored in
+                cv = self.ev(st.value)
+                self.env[st.targets[0].elts[0].id] = cv[1]
+                self.env[st.targets[0].elts[1].id] = ('pyconst', bool(cv[2]))
             elif isinstance(st, ast.AugAssign) and isinstance(st.op, (ast.Add, ast.Sub)) and \
                     isinstance(st.target, ast.Name) and st.target.id in self.env:
                 d = self.ev(st.value)
